@@ -19,6 +19,12 @@ func Run(c *hx.Ctx) {
 		prop = "both"
 	}
 	e := &eng{c: c, prop: prop}
+	if c.Args["part"] == "tree" { // development aid: only the tree-model correspondence
+		r := c.Rng.Fork()
+		e.corrTree(r)
+		e.corrDirWrs(r)
+		return
+	}
 	e.exhaustive()
 	e.random()
 	e.fillCycles()
